@@ -13,6 +13,7 @@ CONSTANTS NPieces, Tops, Lens, Incs, Dir, ShiftBy, Views, Emit
 DirDown == {-1}
 DirUp == {1}
 DirBoth == {-1, 1}
+DirDownFlat == {-1, 0}
 VARIABLES coll, phase, base
 vars == <<coll, phase, base>>
 
